@@ -162,8 +162,8 @@ def _ser_scale_episodes(g):
         y = g.fresh()
         g.emit("rd %s %s %s" % (y, r.choice(ENTRIES), x))
         g.count("ser:large-header")
-    for n0 in (45, 100, 200):
-        for cnt in r.sample([n0 + 1, 64, 65, 70, 71, 72, 128, 129, 140, 143, 144, 256, 257, 300, 303, 304], 3):
+    for n0, cnts in ((45, [65, 70, 71]), (100, [129, 140, 143]), (200, [257, 300, 303]), (40, [41, 64, 72])):
+        for cnt in cnts:
             x, y = g.fresh("c"), g.fresh("u")
             g.emit("new %s" % x)
             g.emit("addstride %s %d 65536 %d" % (x, r.choice([1, 65536 * 7]), cnt))
